@@ -26,7 +26,16 @@ StarForms(s) ==
        \cup {head \o JoinBar([parts EXCEPT ![k] = <<42>>]) : k \in 1..n}
        \cup {head \o e : e \in {<<>>, <<124>>, <<124, 124>>, <<32>>, <<32, 124, 32>>, <<42, 124, 42>>,
                                <<42, 42>>, <<42, 32, 42>>, <<42, 42, 42>>, <<42, 42, 124, 42, 42>>, <<32, 42, 42, 32>>}}
-Corruptions(s) == (Deleted(s) \cup Replaced(s) \cup Inserted(s) \cup StarForms(s)) \ {s}
+\* one character of the constraints part written as its URL escape (%XX, upper- and lower-case hex): go-univers takes the
+\* text literally, so the result holds a '%' where a comparator or version character was - ill-formed for every scheme
+\* (a tree that decodes escapes would silently read the original range)
+HexDigit(d, lower) == IF d < 10 THEN 48 + d ELSE (IF lower THEN 87 ELSE 55) + d
+PercentEncoded(s) ==
+  LET sl == IndexOf(s, 47) IN
+  IF sl = 0 THEN {}
+  ELSE {SubSeq(s, 1, i - 1) \o <<37, HexDigit(s[i] \div 16, lw), HexDigit(s[i] % 16, lw)>> \o SubSeq(s, i + 1, Len(s))
+          : i \in (sl + 1)..Len(s), lw \in BOOLEAN}
+Corruptions(s) == (Deleted(s) \cup Replaced(s) \cup Inserted(s) \cup StarForms(s) \cup PercentEncoded(s)) \ {s}
 
 \* ckind remembers which set the seed came from ("s" corrupted, "r" emitted as is): a membership test in the
 \* large Routing set on every step would re-evaluate its definition each time
